@@ -16,11 +16,11 @@ import (
 func init() { register("C14", runC14) }
 
 type ntlmStep struct {
-	sid   string // "" = empty session
-	kind  byte   // N A M G B E
-	user  string
-	pw    string
-	from  int // index of the history step whose challenge the proof is for (A only), -1 = none available
+	sid  string // "" = empty session
+	kind byte   // N A M G B E
+	user string
+	pw   string
+	from int // index of the history step whose challenge the proof is for (A only), -1 = none available
 }
 
 func runC14(r *Run) {
